@@ -169,6 +169,19 @@ func TestC12(t *testing.T) {
 					return false
 				}})
 			}
+			// (5b) the server really switches to a classical group the hello does not list, through a
+			// HelloRetryRequest, and finishes the handshake on it
+			if g, ok := pickNot(rg, []uint16{0x0019, 0x0018, 0x0017, 0x001d}, listed); ok {
+				add(advCase{name: "hrr_to_unlisted_group", max: tls.VersionTLS13, plan: func() *tls.VerifPlan { return &tls.VerifPlan{ForceGroup: tls.CurveID(g)} },
+					void: func(ch *wire.ClientHello) bool {
+						for _, x := range ch.Groups {
+							if x == g {
+								return true
+							}
+						}
+						return false
+					}})
+			}
 			// (6b) ALPN not offered in EncryptedExtensions
 			add(advCase{name: "tls13_unoffered_alpn", max: tls.VersionTLS13, plan: func() *tls.VerifPlan {
 				return &tls.VerifPlan{RewriteOut: rewriteEE(func(exts []wire.Ext) []wire.Ext { return setExt(exts, wire.ExtALPN, alpnBody("verif-not-offered")) })}
@@ -384,7 +397,7 @@ func TestC12(t *testing.T) {
 	})
 	r.Count("case_kinds", int64(len(caseKinds)))
 	r.Floor("rejected", 500)
-	r.Floor("case_kinds", 14)
+	r.Floor("case_kinds", 15)
 }
 
 // compressCertPlan replaces the server's Certificate message by a valid
